@@ -22,6 +22,19 @@ wire has no newline and dies with the connection, and the retry sends the whole 
 is what `sendOne` does (it always frames the full `m`). Kernel timing decides *which*
 script occurs; the theorems hold for all of them.
 
+A sink that stays connected but reads nothing for a while (event `z<k>` of the socket harness: seconds of
+silence while a message larger than the socket buffers is being written) is **not** a new kind of outcome:
+the loop sets no write deadline, the write blocks and returns nil when the sink reads again, so such a run
+is a script in which that write is `ok` — every theorem below already quantifies over it, and a run in which
+the sink only stalls is the all-`ok` script of `no_fault_all_delivered` (everything arrives once, in order,
+on the first connection, no error counted; after the last real fault: `resumption`). What the stall *tests*
+is the trusted clause above, "a failed write leaves no part of a line in front of the retry": it holds
+because a write fails only on a connection that is gone. A write that could fail on a healthy connection
+(a deadline, say) after putting part of the line on the wire would break it — the retry of the whole message
+would land behind the fragment; the harness demands exact, duplicate-free, in-order delivery with a zero error
+counter from every stalled run, and `gen_rawLoop_expected` pins that the loop consists of the write, the error
+branch and nothing else.
+
 The tie to the source is (A) the obligations on `Vflow.Gen.ProducerFacts` at the end of this file
 (regenerated from `producer/*.go` on every run) and (B) the `producer` correspondence
 (`producer/verif_rawsocket_test.go` against real sockets).
